@@ -124,6 +124,70 @@ def _stores(fi):
             yield ('mutate', rootname, ast.unparse(n.func), n, local, selfname)
 
 
+def _call_local_param(p, fi, param, _depth=0):
+    """Is parameter `param` of the private helper fi a container that lives only as long as one API call: every call site
+    in the package hands over a fresh container literal ({} / [] / dict() / list()), a local of the caller that is bound to
+    such a literal and used for nothing but being handed to this helper, or the caller's own parameter with the same
+    property?  (A batch helper that shares parent material between the siblings derived by one call.)"""
+    if _depth > 3 or not fi.name.startswith('_') or fi.name.startswith('__') or param not in fi.params:
+        return False
+    idx = fi.params.index(param)
+    method = fi.kind in ('method', 'property')
+    sites = []
+    for f2 in p.functions.values():
+        for n in ast.walk(f2.node):
+            if not isinstance(n, ast.Call):
+                continue
+            f = n.func
+            nm = f.attr if isinstance(f, ast.Attribute) else (f.id if isinstance(f, ast.Name) else None)
+            if nm != fi.name:
+                continue
+            if any(isinstance(a, ast.Starred) for a in n.args) or any(kw.arg is None for kw in n.keywords):
+                return False
+            pos = idx - 1 if (method and isinstance(f, ast.Attribute)) else idx
+            arg = n.args[pos] if 0 <= pos < len(n.args) else next((kw.value for kw in n.keywords if kw.arg == param), None)
+            sites.append((f2, arg))
+    if not sites:
+        return False
+
+    def fresh_literal(a):
+        return isinstance(a, (ast.Dict, ast.List, ast.Set)) and not getattr(a, 'keys', None) and not getattr(a, 'elts', None) \
+            or (isinstance(a, ast.Call) and isinstance(a.func, ast.Name) and a.func.id in ('dict', 'list', 'set') and not a.args and not a.keywords)
+    for f2, arg in sites:
+        if arg is None:
+            return False            # a default would be one object shared by all calls
+        if fresh_literal(arg):
+            continue
+        if isinstance(arg, ast.Name):
+            nm = arg.id
+            if nm in f2.params:
+                if not _call_local_param(p, f2, nm, _depth + 1):
+                    return False
+                continue
+            binds = [n for n in ast.walk(f2.node) if isinstance(n, ast.Assign) and any(isinstance(t, ast.Name) and t.id == nm for t in n.targets)]
+            if len(binds) != 1 or not fresh_literal(binds[0].value) or len(binds[0].targets) != 1:
+                return False
+            # every other occurrence of the name is an argument of a call to this helper
+            ok_uses = set()
+            for n in ast.walk(f2.node):
+                if isinstance(n, ast.Call):
+                    f = n.func
+                    cn = f.attr if isinstance(f, ast.Attribute) else (f.id if isinstance(f, ast.Name) else None)
+                    if cn == fi.name:
+                        for a in list(n.args) + [kw.value for kw in n.keywords]:
+                            if isinstance(a, ast.Name) and a.id == nm:
+                                ok_uses.add(id(a))
+            for n in ast.walk(f2.node):
+                if isinstance(n, ast.Name) and n.id == nm and isinstance(n.ctx, ast.Load) and id(n) not in ok_uses:
+                    return False
+            # the binding must not sit at module / class level or be declared global / nonlocal
+            if any(isinstance(n, (ast.Global, ast.Nonlocal)) and nm in n.names for n in ast.walk(f2.node)):
+                return False
+            continue
+        return False
+    return True
+
+
 def _is_none_test(test, selfname, attr):
     return isinstance(test, ast.Compare) and len(test.ops) == 1 and isinstance(test.ops[0], ast.Is) \
         and isinstance(test.comparators[0], ast.Constant) and test.comparators[0].value is None \
@@ -552,6 +616,39 @@ def _iterated_names(p, fi, var):
     return None
 
 
+def _table_value_names(p, fi, expr):
+    """`expr` is a look-up in a constant table of strings - TABLE[k], TABLE.get(k), TABLE.get(k, 'const') with TABLE a dict
+    literal held by a class attribute (`self.X` / `cls.X` / `Class.X`) or a module constant: return the strings it can yield."""
+    extra = []
+    tab = None
+    if isinstance(expr, ast.Subscript):
+        tab = expr.value
+    elif isinstance(expr, ast.Call) and isinstance(expr.func, ast.Attribute) and expr.func.attr == 'get' and 1 <= len(expr.args) <= 2 \
+            and not expr.keywords:
+        tab = expr.func.value
+        if len(expr.args) == 2:
+            if not (isinstance(expr.args[1], ast.Constant) and isinstance(expr.args[1].value, str)):
+                return None
+            extra = [expr.args[1].value]
+        else:
+            return None         # .get(k) can yield None: getattr would raise TypeError, but keep this simple and undecided
+    node = None
+    if isinstance(tab, ast.Attribute) and isinstance(tab.value, ast.Name):
+        ci = None
+        if fi.cls is not None and (tab.value.id in fi.params[:1] or tab.value.id == fi.cls.name):
+            ci = fi.cls
+        else:
+            ci = next((c for c in p.classes.values() if c.name == tab.value.id), None)
+        a = ci.find_attr(tab.attr) if ci is not None else None
+        node = a[1] if a else None
+    elif isinstance(tab, ast.Name):
+        nodes = fi.module.assigns.get(tab.id)
+        node = nodes[-1] if nodes else None
+    if isinstance(node, ast.Dict) and node.values and all(isinstance(v, ast.Constant) and isinstance(v.value, str) for v in node.values):
+        return tuple(v.value for v in node.values) + tuple(extra)
+    return None
+
+
 def _is_cli_namespace(p, fi, name, _depth=0):
     """Is local `name` of fi the argparse namespace: bound from a *parse_args(...) call, or a parameter that every call
     site fills with such a variable?"""
@@ -662,6 +759,12 @@ def run(ctx):
                     cats['c'] += 1
                     ob.evaluations += 1
                     continue
+                if rootname is not None and rootname != selfname and rootname in fi.params and _call_local_param(p, fi, rootname):
+                    cats['g'] = cats.get('g', 0) + 1
+                    ob.evaluations += 1
+                    ob.note('%s %s: the container is a parameter of a private helper that every call site fills with a fresh '
+                            'container living for one API call' % (key, text))
+                    continue
                 if not inside and key in OUTSIDE:
                     ob.note('outside the closure: %s %s (%s)' % (key, text, OUTSIDE[key]))
                     ob.evaluations += 1
@@ -730,7 +833,20 @@ def run(ctx):
                         ob.evaluations += 1
                         ob.note('getattr on the argparse namespace in %s (not a node / wallet object)' % fi.qual[len(PKG) + 1:])
                         continue
-                    ob.require(False, 'dynamic attribute access (%s) defeats the effect analysis' % ast.unparse(n), '%s:%d' % (fi.module.relpath, n.lineno))
+                    if n.func.id == 'getattr' and len(n.args) >= 2:
+                        names_ = _table_value_names(p, fi, n.args[1])
+                        if names_ is not None and 'children' not in names_:
+                            ob.evaluations += 1
+                            ob.note('getattr over the values %s of a constant table in %s' % (list(names_), fi.qual[len(PKG) + 1:]))
+                            continue
+                        if names_ is not None:
+                            ob.require(False, '%s reads the bookkeeping list `children` through getattr over a table (%s)'
+                                       % (fi.qual[len(PKG) + 1:], ast.unparse(n)), '%s:%d' % (fi.module.relpath, n.lineno))
+                            continue
+                    # which attribute is read or written cannot be told from the source: the effect analysis has no answer here
+                    # (first version: reported as a violation - a false alarm on the correct PR V2-R1)
+                    ob.undecided('%s:%d: dynamic attribute access (%s) defeats the effect analysis'
+                                 % (fi.module.relpath, n.lineno, ast.unparse(n)))
         if n_children < 2:
             ob.undecided('the bookkeeping field `children` was not found (%d occurrences; at least its initialisation and one append are expected)' % n_children)
     with ctx.obligation('C13.NOGLOBAL', 'global / cached state', None, 'btc_hd_wallet/') as ob:
